@@ -87,13 +87,17 @@ class Run:
                  clock_gran_us: int = 1):
         k = dict(EXACT_KNOBS)
         k.update(knobs or {})
+        if 'debug' not in k:
+            # a fifth of the runs (decided by the plan, no extra PRNG draw) have the debug
+            # messages of every block and of the circuit switched on
+            k['debug'] = k['hash_salt'] % 5 == 1
         self.knobs = k
         self.loop = VirtualLoop(
             origin_ns=k['origin_ns'], latency_ns=k['latency_ns'], cost_ns=k['cost_ns'],
             knob_seed=k['knob_seed'], tie_permute=k['tie_permute'], max_steps=max_steps)
         seams.bind(self.loop, wall_start_us=wall_start_us, tz_offset_s=tz_offset_s,
                    hash_salt=k['hash_salt'], read_cost_ns=read_cost_ns,
-                   clock_gran_us=clock_gran_us)
+                   clock_gran_us=clock_gran_us, debug=k['debug'])
         self.edzed = seams.edzed
         self.t0 = self.loop.time()
         self.trace = []
@@ -103,6 +107,8 @@ class Run:
         self.behaviour = []         # abstracted trace for the "distinct" measure
         self.main_result = None
         self.main_exc = None
+        if k['debug']:
+            self.stats['reach:debug_messages_on'] += 1
 
     # ---- recording ----
     def now(self) -> float:
